@@ -96,6 +96,13 @@ CHECKS = {
         note="Trusts vf/model.py (descriptor-only model; permissive where the documentation is silent: transforms returning MISSING, transforming a missing attribute, preparer on restored defaults) and history replay to build replicas.",
         ref="DESIGN.md section 4, C05",
     ),
+    "C06": dict(
+        level="exploration",
+        technique="model-based property testing: element helpers vs the plain Python container operation on a copy of the previous content; Hypothesis-generated worlds/histories + bounded-exhaustive enumeration of contents x helpers x addressing modes",
+        text="Every element helper (with_/update_/transform_/without_<singular>) in every addressing mode (_index/_insert, _by_index True/False/absent, key, value, keywords building or updating spec elements, bare-key promotion) is compared with the corresponding plain list/dict/set operation: exhaustively on every content of length <= 3 over 3-value universes incl. 0 and '' (and the missing container) for List[int], List[str], Dict[str,int], Set[int], Set[str], and on Hypothesis-generated worlds (spec-valued and keyed containers, contents reached by prior element operations). Missing targets must raise IndexError/KeyError/ValueError; other attributes must not change.",
+        note="The by-index default is computed with the reference type checker; spots where the documentation is silent (ops on a missing container other than with_, mapping with_ without value, identity-sensitive transforms) are unconstrained.",
+        ref="DESIGN.md section 4, C06",
+    ),
 }
 
 NOT_YET = "check not built yet in this revision (see DESIGN.md section 9 for the order); nothing is claimed"
